@@ -56,8 +56,6 @@ Section Generic.
         end
     end.
 
-  Definition identity (n : nat) : list (list A) :=
-    map (fun i => map (fun j => if Nat.eqb i j then o_one K else o_zero K) (seq 0 n)) (seq 0 n).
 End Generic.
 
 (* ------------------------------------------------------------------------------------------------------------ *)
